@@ -1488,7 +1488,7 @@ ecdsa_verify_be(ec_curve_p curve,
 		return (EINVAL);
 	/* Calc bytes count for numbers. */
 	bytes = EC_CURVE_CALC_BYTES(curve);
-	if (sign_size > bytes)
+	if (sign_size > MAX(bytes, ((bn_calc_bits(&curve->n) + 7) / 8)))
 		return (EINVAL);
 	/* Double size + 1 digit. */
 	bits = EC_CURVE_CALC_BITS_DBL(curve);
@@ -1525,7 +1525,7 @@ ecdsa_verify_le(ec_curve_p curve,
 		return (EINVAL);
 	/* Calc bytes count for numbers. */
 	bytes = EC_CURVE_CALC_BYTES(curve);
-	if (sign_size > bytes)
+	if (sign_size > MAX(bytes, ((bn_calc_bits(&curve->n) + 7) / 8)))
 		return (EINVAL);
 	/* Double size + 1 digit. */
 	bits = EC_CURVE_CALC_BITS_DBL(curve);
@@ -1666,7 +1666,7 @@ ecdsa_verify_priv_key_be(ec_curve_p curve,
 		return (EINVAL);
 	/* Calc bytes count for numbers. */
 	bytes = EC_CURVE_CALC_BYTES(curve);
-	if (sign_size > bytes)
+	if (sign_size > MAX(bytes, ((bn_calc_bits(&curve->n) + 7) / 8)))
 		return (EINVAL);
 	/* Double size + 1 digit. */
 	bits = EC_CURVE_CALC_BITS_DBL(curve);
@@ -1701,7 +1701,7 @@ ecdsa_verify_priv_key_le(ec_curve_p curve,
 		return (EINVAL);
 	/* Calc bytes count for numbers. */
 	bytes = EC_CURVE_CALC_BYTES(curve);
-	if (sign_size > bytes)
+	if (sign_size > MAX(bytes, ((bn_calc_bits(&curve->n) + 7) / 8)))
 		return (EINVAL);
 	/* Double size + 1 digit. */
 	bits = EC_CURVE_CALC_BITS_DBL(curve);
@@ -1964,7 +1964,7 @@ ecdsa_recover_pub_key_from_sign_be(ec_curve_p curve,
 		return (EINVAL);
 	/* Calc bytes count for numbers. */
 	bytes = EC_CURVE_CALC_BYTES(curve);
-	if (sign_size > bytes)
+	if (sign_size > MAX(bytes, ((bn_calc_bits(&curve->n) + 7) / 8)))
 		return (EINVAL);
 	/* Double size + 1 digit. */
 	bits = EC_CURVE_CALC_BITS_DBL(curve);
